@@ -90,9 +90,44 @@ def run(ctx):
     ctx.floor("C10.7 destructor obligations taken from the writer chain", n7, 2)
     ctx.paths += c2.paths
 
+    # ---- C10.8 only ASCII heads reach the application: every line the head reader works on has been checked to be ASCII (a request
+    # target with other bytes is otherwise delivered: the target is copied without any check of its own)
+    ascii_rule(ctx, "C10.8")
+
     # ---- C10.6 Expect handling in new_request
     expect_rule(ctx, "C10.6")
     return {}
+
+
+def ascii_rule(ctx, rule):
+    facts = ctx.facts
+    import absint
+    PM = PR.pmodel(facts)
+    lr = PM.line_reader()
+    where = "%s:%d" % (lr.file, lr.line)
+    unchecked = [(g, bb) for g, bb, t in facts.all_calls(lambda t: bool(re.search(r"from_ascii_unchecked$|from_utf8_unchecked$", call_name(t)))) if g.file == PM.file]
+    ctx.ob(rule, "no-unchecked-text|%s" % PM.file, "the parser never builds text without checking its bytes", not unchecked, PM.file, None if not unchecked else str([g.loc(bb) for g, bb in unchecked][:3]))
+    ok_ty = re.match(r"^std::result::Result<ascii::AsciiString,", lr.local_ty(0)) is not None
+    if ok_ty:
+        ctx.ob(rule, "%s|line-is-ascii" % lr.id, "the line reader hands out an AsciiString (a type that cannot hold a non-ASCII byte)", True, where)
+        return
+    f = inline.inlined(facts, lr.id, stop=lambda d: facts.fns[d].rec.get("local") and not PM.same_file(d), extern_ok=Q.std_small)
+    bad = []
+    n = 0
+    for p in absint.explore(f, 0, None, max_paths=3000, max_visits=2):
+        if p.end[0] != "return":
+            continue
+        r = absint.deep(p.state, p.ret())
+        if not (r and r[0] == "agg" and r[2] == "Ok"):
+            continue
+        n += 1
+        checked = any(x and x[0] == "call" and re.search(r"AsciiString::from_ascii$|into_ascii_string$|AsciiStr::from_ascii$|as_ascii_str$", x[1]) for x in absint.walk_terms(r))
+        for bb, c in p.conds:
+            if c and c[0] == "scalar" and c[2] is True and c[1] and c[1][0] == "call" and re.search(r"::is_ascii$", c[1][1]):
+                checked = True
+        if not checked:
+            bad.append(symex.sym_str(r)[:80])
+    ctx.ob(rule, "%s|line-is-ascii" % lr.id, "every line the line reader hands out has been checked to consist of ASCII bytes only", n > 0 and not bad, where, None if not bad else str(bad[:2]))
 
 
 def header_parser_rule(ctx, rule):
@@ -140,6 +175,9 @@ def expect_rule(ctx, rule):
     for r in rows:
         ats = dict((a, v) for a, v in r["atoms"])
         present = any(a[:2] == ("present", "Expect") and v for a, v in r["atoms"])
+        if present and ("expect100",) not in ats and r["kind"] == "ok":
+            n += 1
+            bad.append("a request with an Expect header is accepted without its value having been compared with 100-continue")
         if present and ats.get(("expect100",)) is False:
             n += 1
             if r["kind"] != "err":
